@@ -1,0 +1,125 @@
+// Licensed to Apache Software Foundation (ASF) under one or more contributor
+// license agreements. See the NOTICE file distributed with
+// this work for additional information regarding copyright
+// ownership. Apache Software Foundation (ASF) licenses this file to you under
+// the Apache License, Version 2.0 (the "License"); you may
+// not use this file except in compliance with the License.
+// You may obtain a copy of the License at
+//
+//     http://www.apache.org/licenses/LICENSE-2.0
+//
+// Unless required by applicable law or agreed to in writing,
+// software distributed under the License is distributed on an
+// "AS IS" BASIS, WITHOUT WARRANTIES OR CONDITIONS OF ANY
+// KIND, either express or implied.  See the License for the
+// specific language governing permissions and limitations
+// under the License.
+
+//go:build verif
+
+// Contracts for the measure engine's version-resolution kernels (comment-only; read by /verif/govc).
+
+package measure
+
+//@ section C02 C03
+//
+// column copies (tag families, fields) are not modelled: their effect is confined to the target's column headers
+//@ func blockPointer.appendTagFamilies
+//@   assumed copies rows [b.idx, offset) of every tag column of b into bi (nested column slices are not modelled)
+//@   modifies bi.tagFamilies
+//@   ensures  fresh(bi.tagFamilies) || sameobj(bi.tagFamilies, old(bi.tagFamilies))
+//@ func fullFieldAppend
+//@   assumed copies rows [b.idx, offset) of every field column (not modelled)
+//@   modifies bi.field
+//@   ensures  fresh(bi.field.columns) || sameobj(bi.field.columns, old(bi.field.columns))
+//@ func fastFieldAppend
+//@   assumed copies rows [b.idx, offset) of every field column when the layouts agree, else reports an error and leaves bi unchanged (not modelled)
+//@   modifies bi.field
+//@   ensures  fresh(bi.field.columns) || sameobj(bi.field.columns, old(bi.field.columns))
+//
+// rows of b from its cursor up to offset are appended to bi: timestamps and versions element by element, b untouched
+//@ spec func rowsAppended(bi *blockPointer, b *blockPointer, n0 int, from int, cnt int) bool =
+//@     len(bi.timestamps) == n0 + cnt && len(bi.versions) == n0 + cnt &&
+//@     (forall j :: 0 <= j && j < cnt ==> bi.timestamps[n0+j] == b.timestamps[from+j] && bi.versions[n0+j] == b.versions[from+j])
+//@ func blockPointer.append
+//@   mode int
+//@   inline assertIdxAndOffset
+//@   requires bi != nil && b != nil && bi != b
+//@   requires len(bi.versions) == len(bi.timestamps) && len(b.versions) == len(b.timestamps)
+//@   requires 0 <= b.idx && bi.idx <= b.idx && offset <= len(b.timestamps)
+//@   requires separate: !sameobj(bi.timestamps, b.timestamps) && !sameobj(bi.versions, b.versions) && !sameobj(bi.timestamps, b.versions) && !sameobj(bi.versions, b.timestamps) && !sameobj(bi.timestamps, bi.versions)
+//@   modifies bi.timestamps
+//@   modifies bi.versions
+//@   modifies bi.timestamps[len(bi.timestamps):cap(bi.timestamps)]
+//@   modifies bi.versions[len(bi.versions):cap(bi.versions)]
+//@   modifies bi.tagFamilies
+//@   modifies bi.field
+//@   ensures  shape-cols: (fresh(bi.tagFamilies) || sameobj(bi.tagFamilies, old(bi.tagFamilies))) && (fresh(bi.field.columns) || sameobj(bi.field.columns, old(bi.field.columns)))
+//@   ensures  shape: (fresh(bi.timestamps) || (sameobj(bi.timestamps, old(bi.timestamps)) && off(bi.timestamps) == off(old(bi.timestamps)) && cap(bi.timestamps) == cap(old(bi.timestamps)))) && (fresh(bi.versions) || (sameobj(bi.versions, old(bi.versions)) && off(bi.versions) == off(old(bi.versions)) && cap(bi.versions) == cap(old(bi.versions))))
+//@   ensures  nothing: offset <= b.idx ==> samehdr(bi.timestamps, old(bi.timestamps)) && samehdr(bi.versions, old(bi.versions))
+//@   ensures  appended: offset > b.idx ==> rowsAppended(bi, b, old(len(bi.timestamps)), b.idx, offset - b.idx)
+//@   ensures  kept: forall j :: 0 <= j && j < old(len(bi.timestamps)) ==> bi.timestamps[j] == old(bi.timestamps[j]) && bi.versions[j] == old(bi.versions[j])
+//@   ensures  separate: !sameobj(bi.timestamps, b.timestamps) && !sameobj(bi.versions, b.versions) && !sameobj(bi.timestamps, b.versions) && !sameobj(bi.versions, b.timestamps) && !sameobj(bi.timestamps, bi.versions)
+//@ func blockPointer.appendAll
+//@   mode int
+//@   requires bi != nil && b != nil && bi != b
+//@   requires len(bi.versions) == len(bi.timestamps) && len(b.versions) == len(b.timestamps)
+//@   requires 0 <= b.idx && bi.idx <= b.idx
+//@   requires separate: !sameobj(bi.timestamps, b.timestamps) && !sameobj(bi.versions, b.versions) && !sameobj(bi.timestamps, b.versions) && !sameobj(bi.versions, b.timestamps) && !sameobj(bi.timestamps, bi.versions)
+//@   modifies bi.timestamps
+//@   modifies bi.versions
+//@   modifies bi.timestamps[len(bi.timestamps):cap(bi.timestamps)]
+//@   modifies bi.versions[len(bi.versions):cap(bi.versions)]
+//@   modifies bi.tagFamilies
+//@   modifies bi.field
+//@   ensures  shape-cols: (fresh(bi.tagFamilies) || sameobj(bi.tagFamilies, old(bi.tagFamilies))) && (fresh(bi.field.columns) || sameobj(bi.field.columns, old(bi.field.columns)))
+//@   ensures  shape: (fresh(bi.timestamps) || (sameobj(bi.timestamps, old(bi.timestamps)) && off(bi.timestamps) == off(old(bi.timestamps)) && cap(bi.timestamps) == cap(old(bi.timestamps)))) && (fresh(bi.versions) || (sameobj(bi.versions, old(bi.versions)) && off(bi.versions) == off(old(bi.versions)) && cap(bi.versions) == cap(old(bi.versions))))
+//@   ensures  nothing: len(b.timestamps) <= b.idx ==> samehdr(bi.timestamps, old(bi.timestamps)) && samehdr(bi.versions, old(bi.versions))
+//@   ensures  appended: len(b.timestamps) > b.idx ==> rowsAppended(bi, b, old(len(bi.timestamps)), b.idx, len(b.timestamps) - b.idx)
+//@   ensures  kept: forall j :: 0 <= j && j < old(len(bi.timestamps)) ==> bi.timestamps[j] == old(bi.timestamps[j]) && bi.versions[j] == old(bi.versions[j])
+//@   ensures  separate: !sameobj(bi.timestamps, b.timestamps) && !sameobj(bi.versions, b.versions) && !sameobj(bi.timestamps, b.versions) && !sameobj(bi.versions, b.timestamps) && !sameobj(bi.timestamps, bi.versions)
+//@ func blockPointer.updateMetadata
+//@   mode int
+//@   requires bi != nil
+//@   modifies bi.bm.timestamps.min
+//@   modifies bi.bm.timestamps.max
+//@   ensures  len(bi.timestamps) > 0 ==> bi.bm.timestamps.min == bi.timestamps[0] && bi.bm.timestamps.max == bi.timestamps[len(bi.timestamps)-1]
+//
+// ---- order of a write batch: series, then time, then version descending (so the first row of a run has the highest version) ----
+//@ spec func dpBefore(d *dataPoints, i int, j int) bool =
+//@     d.seriesIDs[i] < d.seriesIDs[j] ||
+//@     (d.seriesIDs[i] == d.seriesIDs[j] && (d.timestamps[i] < d.timestamps[j] || (d.timestamps[i] == d.timestamps[j] && d.versions[i] > d.versions[j])))
+//@ func dataPoints.Less
+//@   mode int
+//@   requires d != nil && 0 <= i && i < len(d.seriesIDs) && 0 <= j && j < len(d.seriesIDs)
+//@   requires len(d.timestamps) == len(d.seriesIDs) && len(d.versions) == len(d.seriesIDs)
+//@   ensures  result == dpBefore(d, i, j)
+//@ lemma dpOrderIsStrictWeak(d *dataPoints, i int, j int, k int)
+//@   mode int
+//@   requires d != nil && 0 <= i && i < len(d.seriesIDs) && 0 <= j && j < len(d.seriesIDs) && 0 <= k && k < len(d.seriesIDs)
+//@   requires len(d.timestamps) == len(d.seriesIDs) && len(d.versions) == len(d.seriesIDs)
+//@   ensures  irreflexive: !dpBefore(d, i, i)
+//@   ensures  asymmetric: dpBefore(d, i, j) ==> !dpBefore(d, j, i)
+//@   ensures  transitive: dpBefore(d, i, j) && dpBefore(d, j, k) ==> dpBefore(d, i, k)
+//@   ensures  equivalence-is-same-key: !dpBefore(d, i, j) && !dpBefore(d, j, i) ==> d.seriesIDs[i] == d.seriesIDs[j] && d.timestamps[i] == d.timestamps[j] && d.versions[i] == d.versions[j]
+//@   ensures  highest-version-first: d.seriesIDs[i] == d.seriesIDs[j] && d.timestamps[i] == d.timestamps[j] && d.versions[i] > d.versions[j] ==> dpBefore(d, i, j)
+//
+// removing row i from a batch (used to drop the lower-version duplicates): every parallel column loses exactly row i
+//@ func dataPoints.skip
+//@   mode int
+//@   requires d != nil && 0 <= i
+//@   requires len(d.seriesIDs) == len(d.timestamps) && len(d.versions) == len(d.timestamps) && len(d.tagFamilies) == len(d.timestamps) && (len(d.fields) == 0 || len(d.fields) == len(d.timestamps))
+//@   requires separate: !sameobj(d.timestamps, d.versions)
+//@   modifies d.seriesIDs
+//@   modifies d.timestamps
+//@   modifies d.versions
+//@   modifies d.tagFamilies
+//@   modifies d.fields
+//@   ensures  noop: i >= old(len(d.timestamps)) ==> len(d.timestamps) == old(len(d.timestamps))
+//@   ensures  shorter: i < old(len(d.timestamps)) ==> len(d.timestamps) == old(len(d.timestamps)) - 1 && len(d.seriesIDs) == len(d.timestamps) && len(d.versions) == len(d.timestamps)
+//@   ensures  before-ts: forall k :: 0 <= k && k < i && k < len(d.timestamps) ==> d.timestamps[k] == old(d.timestamps[k])
+//@   ensures  before-ver: forall k :: 0 <= k && k < i && k < len(d.versions) ==> d.versions[k] == old(d.versions[k])
+//@   ensures  before-sid: forall k :: 0 <= k && k < i && k < len(d.seriesIDs) ==> d.seriesIDs[k] == old(d.seriesIDs[k])
+//@   ensures  shifted-ts: forall k :: i <= k && k < len(d.timestamps) ==> d.timestamps[k] == old(d.timestamps[k+1])
+//@   ensures  shifted-ver: forall k :: i <= k && k < len(d.versions) ==> d.versions[k] == old(d.versions[k+1])
+//@   ensures  shifted-sid: forall k :: i <= k && k < len(d.seriesIDs) ==> d.seriesIDs[k] == old(d.seriesIDs[k+1])
